@@ -4,6 +4,7 @@ import XPathV.Spec.Grammar
 import XPathV.Lemmas.Facts
 import XPathV.Lemmas.ParserGrammar
 import XPathV.Lemmas.ParserFull
+import XPathV.Lemmas.FullGrammarComplete
 /-!
 # C10 — expressions parse with XPath 1.0 precedence, associativity and token rules
 -/
@@ -173,5 +174,30 @@ computed from) satisfies the relation the theorems above are stated with -/
 theorem C10_full_grammar_driver_tokens {text : List Char} {toks : List TokV} (h : tokVs text = some toks) :
     tokVsRel text toks :=
   tokVs_sound h
+
+open XPathV.Spec.Full in
+/-- **the full XPath 1.0 expression grammar is unambiguous** (after the token classification of §3.7 of the
+Recommendation): a token stream has at most one tree — a theorem about the Recommendation's productions as
+transcribed in `Spec/FullGrammar.lean`, independent of the code; with it "the tree the grammar assigns" is well
+defined for whole expressions, not only for operator chains -/
+theorem C10_full_grammar_unambiguous {ns : Option NsMap} {toks : List TokV} {a b : Ast}
+    (ha : Parses ns toks a) (hb : Parses ns toks b) : a = b :=
+  Parses_unique ha hb
+
+open XPathV.Spec.Full in
+/-- the executable reference parser decides the grammar relation (sound and complete), so the `full:*` column of
+the correspondence check, computed with it, reports exactly membership in the grammar -/
+theorem C10_reference_parser_decides_grammar {ns : Option NsMap} {toks : List TokV} {a : Ast} :
+    refParseFull ns toks = some a ↔ Parses ns toks a :=
+  refParseFull_iff
+
+open XPathV.Bridge XPathV.Spec.Full XPathV.Lemmas.ParserFull in
+/-- **C10 stated on the grammar relation alone**: if the XPath 1.0 grammar derives the tree `b` for the token
+stream of `text` (then `b` is the only such tree), and `b` nests fewer than 200 deep, the parser accepts `text`
+and returns `b` up to the representation conventions of `normConv` -/
+theorem C10_grammar_tree_is_parsed {ns : Option NsMap} {text : List Char} {toks : List TokV} {b : Ast}
+    (htoks : tokVsRel text toks) (hg : Parses ns toks b) (hdepth : nesting b < 200) :
+    ∃ a, parse (fuelFor text) (defaultCfg ns) text = .ok a ∧ normConv a = normConv b :=
+  full_complete htoks (refParseFull_complete hg) hdepth
 
 end XPathV.Theorems.C10
